@@ -16,7 +16,9 @@ Record mdesc := {
   m_vs : list Z;                      (* coordinate identity of every vertex of the file *)
   m_ts : list (nat * nat * nat);      (* triangles, file-local vertex numbers *)
   m_source : Z;                       (* SurfSourceMat(reference head, this mesh): 0 = exception, otherwise fingerprint of the matrix *)
-  m_sflag : bool                      (* the call got as far as marking the mesh outermost / current barrier *)
+  m_sflag : bool;                     (* the call got as far as marking the mesh outermost / current barrier *)
+  m_source2 : Z;                      (* the same against a SECOND reference head (one the mesh may intersect): 0 = exception *)
+  m_sflag2 : bool
 }.
 Record mst := {
   y_gverts : list Z;                  (* geometry().vertices() *)
@@ -83,9 +85,11 @@ Definition wf_mdesc (d : mdesc) : Prop :=
 
 Inductive mop :=
 | MLoad (i : nat)
-| MSurfSource.      (* SurfSourceMat(reference head, mesh) *)
+| MSurfSource       (* SurfSourceMat(reference head, mesh) *)
+| MSurfSource2.     (* SurfSourceMat(second reference head, the SAME mesh object): the overlap check must not depend on the flags
+                       left by an earlier call *)
 
-Definition dummy_mdesc : mdesc := {| m_status := 3; m_vs := []; m_ts := []; m_source := 0; m_sflag := false |}.
+Definition dummy_mdesc : mdesc := {| m_status := 3; m_vs := []; m_ts := []; m_source := 0; m_sflag := false; m_source2 := 0; m_sflag2 := false |}.
 
 Definition m_step (c : mcfg) (W : list mdesc) (o : mop) (s : mst) : mst * list Z :=
   match o with
@@ -97,6 +101,14 @@ Definition m_step (c : mcfg) (W : list mdesc) (o : mop) (s : mst) : mst * list Z
                   if negb (m_sflag d) then (s, m_observe (m_source d) s)
                   else let s' := {| y_gverts := y_gverts s; y_mverts := y_mverts s; y_tris := y_tris s; y_outer := true; y_cb := true;
                                     y_iso := y_iso s; y_desc := y_desc s |} in (s', m_observe (m_source d) s')
+      end
+  | MSurfSource2 =>
+      match y_desc s with
+      | None => (s, m_observe (-1) s)
+      | Some i => let d := nth i W dummy_mdesc in
+                  if negb (m_sflag2 d) then (s, m_observe (m_source2 d) s)
+                  else let s' := {| y_gverts := y_gverts s; y_mverts := y_mverts s; y_tris := y_tris s; y_outer := true; y_cb := true;
+                                    y_iso := y_iso s; y_desc := y_desc s |} in (s', m_observe (m_source2 d) s')
       end
   end.
 Fixpoint m_run (c : mcfg) (W : list mdesc) (h : list mop) (s : mst) : mst :=
